@@ -570,8 +570,13 @@ theorem asciiProcess_inv (hrc : ComposeSpec env.recompose) (k : Key) {c : Ctx} (
 theorem acSettle_inv {c : Ctx} (h : Inv c) : Inv (acSettle c) := by
   unfold acSettle
   split
-  · exact h.frame rfl rfl rfl
+  · exact (setOptionRaw_inv h "ascii_mode" false).frame rfl rfl rfl
   · exact h
+
+theorem recognizerProcess_inv (hrc : ComposeSpec env.recompose) (k : Key) {c : Ctx} (h : Inv c) :
+    Inv (recognizerProcess env k c).1 := by
+  unfold recognizerProcess
+  (repeat' split) <;> first | exact h | exact pushInput_inv hrc h _
 
 /-! shape post-processor, key binder -/
 
@@ -651,6 +656,7 @@ theorem procRunInner_inv (hrc : ComposeSpec env.recompose) (p : Proc) (k : Key) 
   · exact punctProcess_inv hrc k h
   · exact h
   · exact asciiProcess_inv hrc k h
+  · exact recognizerProcess_inv hrc k h
 
 theorem chainInner_inv (hrc : ComposeSpec env.recompose) (k : Key) : ∀ (ps : List Proc) {c : Ctx}, Inv c →
     Inv (chainInner env k ps c).1
@@ -690,6 +696,7 @@ theorem procRun_inv (hrc : ComposeSpec env.recompose) (p : Proc) (k : Key) {c : 
   · exact punctProcess_inv hrc k h
   · exact kbProcess_inv hrc _ (fun k c hc => processKeyNested_inv hrc k hc) k h
   · exact asciiProcess_inv hrc k h
+  · exact recognizerProcess_inv hrc k h
 
 theorem chain_inv (hrc : ComposeSpec env.recompose) (k : Key) : ∀ (ps : List Proc) {c : Ctx}, Inv c →
     Inv (chain env k ps c).1
